@@ -8,16 +8,69 @@ HERE = os.path.dirname(os.path.dirname(os.path.abspath(__file__)))
 TRUSTED = ("Trusted: CPython, zipfile, snappy, protobuf and the generated schema modules, tmpfs, the reference models in dsim/models.py. "
            "Sampled by seed, not enumerated; Apple Numbers itself is not in the sandbox.")
 
-CLAIMED = {
+TECH = "deterministic simulation: seeded op/fault schedules over the real library, lock-step reference model, faults at the io.open/listdir/clock/uuid seams, ddmin-minimised explicit replay files"
+
+ALL_CLAIMS = {
+    "C01": {
+        "level": "exploration",
+        "text": "Seeded simulation across the persistence boundary: 40-400 generated values per run (all C01 domains, with exhaustive integer and 2-decimal-price blocks stratified by run index) are written inside and outside the table bounds of tables whose shapes straddle 256-row tiles and 256 columns, saved to a simulated disk (file and package form, fresh and overwritten slots) and reopened; the reopened cell class and exact typed value of every cell is compared with the model. Sampling of an infinite value domain: evidence, not proof.",
+        "design_ref": "DESIGN.md section 5 (C01)",
+    },
+    "C02": {
+        "level": "exploration",
+        "text": "Every fixture that opens (plus documents built in-run) is re-saved 1-3 times under seeded schedules of read-only accessor calls (formula, formatted_value, style, border, row_height...) placed before saves or not; a deep snapshot (order, names, cell class, value, formula text, formatted value, bullets, hyperlinks, merge state) of each reopened copy is compared with a pristine twin that was never saved, and cycle n+1 with cycle n.",
+        "design_ref": "DESIGN.md section 5 (C02)",
+    },
     "C03": {
         "level": "exploration",
-        "text": "Seeded deterministic simulation: generated edit histories (writes, row/column insert/delete, add table/sheet, renames, repeated saves, restarts from disk, several documents at once) run against the real library and a list-of-lists reference model in lock-step; the whole grid of every open table is compared after every operation and again on the reopened file; write faults (ENOSPC/EIO, crash with torn file) are injected into saves and recovery is checked. Sampling, not proof: right level because the quantifier is over unbounded histories.",
+        "text": "Seeded deterministic simulation: generated edit histories (writes, row/column insert/delete, add table/sheet, renames, repeated saves, restarts from disk, several documents at once, loaded fixtures) run against the real library and a list-of-lists reference model in lock-step; the whole grid of every open table is compared after every operation and again on the reopened file; write faults (ENOSPC/EIO, crash leaving a torn file) are injected into saves and recovery within two steps is checked. Sampling, not proof: right level because the quantifier is over unbounded histories.",
         "design_ref": "DESIGN.md section 5 (C03), sections 3-4",
-        "technique": "deterministic simulation: seeded op/fault schedules, lock-step reference model, crash/ENOSPC injection at the io.open seam, ddmin-minimised replay files",
+    },
+    "C06": {
+        "level": "exploration",
+        "text": "Metamorphic simulation of the storage layer: a disk-side actor rewrites a saved or shipped document by seeded compositions of meaning-preserving layout changes (member order, stored/deflated, file <-> package with Index.zip <-> loose Index/, IWA re-chunking down to 1-byte chunks, permutation of every lookup list, byte <-> 4-byte cell offsets, header records for empty rows, directory order per listdir call) using an independent IWA codec; the document read from the rewritten file must equal the one read from the original (deep snapshot), with no silent lookup fallback.",
+        "design_ref": "DESIGN.md section 5 (C06)",
+    },
+    "C07": {
+        "level": "exploration",
+        "text": "An independent package validator (own unzip + IWA codec + generated schemas only) runs on every file produced by a successful save in seeded histories (tables, sheets, styles, custom formats, borders, captions, merges, control cells, tile-boundary shapes, repeated saves, saves after failed saves, save-reopen-save chains) and on the plain re-save of fixtures: reopens, references closed except the source's baseline dangling set, ids unique and <= high-water mark, every added archive listed in metadata, tiles/rows/offsets/record lengths consistent.",
+        "design_ref": "DESIGN.md section 5 (C07)",
+    },
+    "C11": {
+        "level": "exploration",
+        "text": "Lock-step twin tables receive the same seeded history, one addressed in row/column form, the other in A1/$A$1 form, and must stay equal to each other and to the model after every call; every position-taking method is probed with negative, one-past, and beyond-limit positions in both notations and must raise IndexError leaving the whole document unchanged; growth must be to exactly the needed size; iter_rows/iter_cols over all boundary min/max combinations must yield exactly the model rectangle or raise IndexError.",
+        "design_ref": "DESIGN.md section 5 (C11)",
+    },
+    "C12": {
+        "level": "exploration",
+        "text": "Seeded histories of merges (disjoint rectangles, singly or as lists), writes, row/column insertions and deletions before/inside/after the rectangles, saves and restarts; after every op and on the reopened file: anchor size, placeholder class/value/rect, untouched outside cells, merge_ranges equal the model's set of rectangles, and the open picture equals the reloaded picture.",
+        "design_ref": "DESIGN.md section 5 (C12)",
+    },
+    "C15": {
+        "level": "exploration",
+        "text": "Seeded histories of add_style / set_cell_style / write(style=) over all 15 attributes and of border strokes (side, start, length, width, colour, pattern; overlapping, abutting, superseding) against a last-writer-wins edge model; style/border reads are scheduled observer events; an observed and an unobserved twin must reload equal (reading is pure), and the open document must equal the reloaded one.",
+        "design_ref": "DESIGN.md section 5 (C15)",
+    },
+    "C16": {
+        "level": "exploration",
+        "text": "Seeded histories setting any subset of row heights, column widths, header counts, names, caption text/visibility, table-name visibility and coordinates on fixtures and new documents, with strokes of various widths on the affected rows/columns, with or without size observers before saving, over 1-3 save/reopen cycles with an observer twin: set values survive, source values survive unobserved, and nothing drifts between cycles.",
+        "design_ref": "DESIGN.md section 5 (C16)",
+    },
+    "C17": {
+        "level": "fault_enumeration",
+        "text": "Fault injection at rest and in flight: every shipped fixture (valid and deliberately bad) and documents saved in-run are damaged by seeded sequences of 1-3 faults from a catalogue of 29 kinds (truncation classes, aimed bit flips and overwrites, 13 per-member faults applied through a valid re-zip with an independent IWA codec, container faults), plus torn files from crashes injected into saves and non-document paths; every open is classified opened / library error / escape, and an escape from container loading (iwork.py, iwafile.py, ObjectStore init) is a violation keyed by exception class and function. Thorough enumerates fixture x member-level fault kind.",
+        "design_ref": "DESIGN.md section 5 (C17)",
+    },
+    "C19": {
+        "level": "exploration",
+        "text": "Seeded histories of add_sheet/add_table with named, unnamed, case-variant duplicate and generated-looking names, renames, lookups by every name and every index in [-2n-k, 2n+k], saves and restarts, against an ordered-list model: unique names after every op, fresh generated names, duplicates refused with IndexError and nothing changed, lookups consistent with iteration order, names and order preserved by save/reopen.",
+        "design_ref": "DESIGN.md section 5 (C19)",
     },
 }
+BUILT = ["C01", "C03", "C11", "C17", "C19"]
+CLAIMED = {k: {**v, "technique": TECH} for k, v in ALL_CLAIMS.items() if k in BUILT}
 
-PENDING = {'C01': 'intended claim (see DESIGN.md section 5); the check is not built yet in this commit', 'C02': 'intended claim (see DESIGN.md section 5); the check is not built yet in this commit', 'C06': 'intended claim (see DESIGN.md section 5); the check is not built yet in this commit', 'C07': 'intended claim (see DESIGN.md section 5); the check is not built yet in this commit', 'C11': 'intended claim (see DESIGN.md section 5); the check is not built yet in this commit', 'C12': 'intended claim (see DESIGN.md section 5); the check is not built yet in this commit', 'C15': 'intended claim (see DESIGN.md section 5); the check is not built yet in this commit', 'C16': 'intended claim (see DESIGN.md section 5); the check is not built yet in this commit', 'C17': 'intended claim (see DESIGN.md section 5); the check is not built yet in this commit', 'C19': 'intended claim (see DESIGN.md section 5); the check is not built yet in this commit'}
+PENDING = {k: "intended claim (DESIGN.md section 5); the check is not built yet in this commit" for k in ALL_CLAIMS if k not in BUILT}
 
 NOT_APPLICABLE = {
     "C04": "pure function of one byte record (cell record encode/decode over kinds x flag subsets): no I/O, state, schedule or fault for a simulator to control; input enumeration, not simulation (DESIGN.md section 5)",
